@@ -196,6 +196,20 @@ func c14Setup(c *Ctx) {
 			}
 			return false
 		},
+		PoolWrap: func(_ []byte, orig, res *bytes.Buffer) {
+			// a marshalled form that outgrew the pooled buffer it was appended to lives on in a buffer of its own, which
+			// is released to the pool later without ever having been taken from it: its ownership starts here
+			if !p.enabled.Load() || res == orig {
+				return
+			}
+			p.mu.Lock()
+			p.live[res] = true
+			if p.recordHist {
+				p.clock++
+				p.history = append(p.history, porcupine.Operation{ClientId: 0, Input: poolEv{p.id(res), true}, Call: p.clock, Output: true, Return: p.clock})
+			}
+			p.mu.Unlock()
+		},
 		CodecGet: func(pool, kind string, obj any) {
 			if !p.enabled.Load() {
 				return
